@@ -187,19 +187,23 @@ fn run_built(b: &Built, ks_explicit: Option<&[u64]>, delays: Option<&[u64]>, mut
         None => ks.into_iter().enumerate().map(|(i, k)| if can_expire && i % 2 == 1 { k + EXPIRY } else { k }).collect(),
     };
     for k_coded in ks {
-        let (k, expiry) = if k_coded >= EXPIRY { (k_coded - EXPIRY, true) } else { (k_coded, false) };
-        if k == 0 || k > n {
+        let at_node = k_coded >= AT_NODE;
+        let v = if at_node { k_coded - AT_NODE } else { k_coded };
+        let (k, expiry) = if v >= EXPIRY { (v - EXPIRY, true) } else { (v, false) };
+        if k == 0 || (!at_node && k > n) || (expiry && !can_expire) {
             continue;
         }
         st.eval();
         if expiry {
-            st.class("ended_by_an_expired_limit_at_poll_k(hook)");
+            st.class(if at_node { "ended_by_an_expired_limit_at_node_N(hook)" } else { "ended_by_an_expired_limit_at_poll_k(hook)" });
+        } else if at_node {
+            st.class("stop_flag_seen_at_node_N(hook)");
         }
         let exk = || ex(vec![k_coded], vec![]);
         let Some(mut state) = prepare(b) else { return Ok(()) };
         let out = run_search(&game, &mut state, &b.main.limit, k_coded)
             .map_err(|pm| Fail::new(&format!("stopped_search_panic:{}", panic_signature(&pm)), format!("search at {} depth {depth} stopped at poll {k}/{n} panicked: {pm}", pos.to_fen())).explicit(exk()))?;
-        let inside = !between.contains(&k);
+        let inside = at_node || !between.contains(&k);
         if inside {
             st.nontrivial(&(b.main.fen.clone(), b.main.moves.clone(), depth, b.hash_mb, b.priors.len(), k));
             st.class("stop_inside_an_iteration");
@@ -215,8 +219,19 @@ fn run_built(b: &Built, ks_explicit: Option<&[u64]>, delays: Option<&[u64]>, mut
         if !legal_in(&pos, out.best) {
             return Err(Fail::new("stopped:bestmove_illegal", format!("search at {} depth {depth} stopped at poll {k}/{n} returned {:?}, which is not legal", pos.to_fen(), out.best)).explicit(exk()));
         }
-        if out.polls != k {
+        if !at_node && out.polls != k {
             return Err(Fail::new("stopped:keeps_searching", format!("search at {} depth {depth}: stop first seen at poll {k} but the flag was polled {} times: positions were examined after the stop", pos.to_fen(), out.polls)).explicit(exk()));
+        }
+        if out.nodes_after_stop != 0 {
+            return Err(Fail::new(
+                "stopped:keeps_searching",
+                format!("search at {} depth {depth}: after the {} was observed at {} {k}, {} more node(s) were entered", pos.to_fen(), if expiry { "expired limit" } else { "stop" }, if at_node { "node" } else { "poll" }, out.nodes_after_stop),
+            )
+            .explicit(exk()));
+        }
+        if at_node && out.stopped_at.is_none() {
+            // the search ended before it reached that node (the tree is smaller than in the reference run)
+            st.class("node_N_not_reached(search_ended_first)");
         }
         check_reports(&pos, &out.infos, Some(depth), st).map_err(|f| f.explicit(exk()))?;
         if snapshot(&game) != before {
@@ -319,9 +334,54 @@ pub fn run(run: &mut Run) -> &'static str {
             run_built(&b, Some(ks), Some(stopper_delays_us), None, st)
         }
     });
+    // the stop (or the expired limit) observed at an arbitrary node: hook H5 places the first in-search
+    // poll at node N of the search - which node is the 10,000th is an accident of the position, so a
+    // search must cope with a poll at any node - and counts the nodes entered after the stop was seen.
+    // One stopped search costs N nodes only, so many more instants are visited than with whole polling
+    // distances: 14 values of N per case, uniform over the nodes of the unstopped search.
+    let cases = tier.pick(700, 12_000);
+    let strat = tape(24..100).prop_map(Case::Tape);
+    run.proptest_part("any_node", RULE, strat, cases, move |c: &Case, st: &mut Stats| match c {
+        Case::Tape(data) => {
+            let Some((mut b, mut tp)) = from_tape(data, tier) else {
+                st.discard();
+                return Ok(());
+            };
+            // shallower than in `stops`: the trees stay small, the instants many
+            let d = 5 + tp.pick(4) as u8;
+            b.main.limit = match b.main.limit {
+                Limit::Depth(_) => Limit::Depth(d),
+                Limit::DepthUnderMoveTime { ms, .. } => Limit::DepthUnderMoveTime { depth: d, ms },
+                Limit::Clocks { wtime, btime, winc, binc, movestogo, .. } => Limit::Clocks { wtime, btime, winc, binc, movestogo, depth: Some(d) },
+                other => other,
+            };
+            let Some((pos, game)) = build(&b.main) else { return Ok(()) };
+            if pos.legal_moves().is_empty() {
+                return Ok(());
+            }
+            let Some(mut state0) = prepare(&b) else { return Ok(()) };
+            let Ok(reference) = run_search(&game, &mut state0, &b.main.limit, 0) else { return Ok(()) };
+            let total = reference.infos.last().map_or(0, |i| i.nodes);
+            if total < 2 {
+                return Ok(());
+            }
+            let can_expire = !matches!(b.main.limit, Limit::Depth(_));
+            let mut ks = vec![];
+            for i in 0..14 {
+                let node = 1 + tp.pick(total.min(60_000) as usize) as u64 * (total / total.min(60_000)).max(1);
+                let node = node.min(total);
+                ks.push(AT_NODE + if can_expire && i % 2 == 1 { EXPIRY } else { 0 } + node);
+            }
+            run_built(&b, Some(&ks), Some(&[]), None, st)
+        }
+        Case::Explicit { hash_mb, priors, main, ks, followup, stopper_delays_us } => {
+            let b = Built { hash_mb: *hash_mb, priors: priors.clone(), main: main.clone(), followup: followup.clone() };
+            run_built(&b, Some(ks), Some(stopper_delays_us), None, st)
+        }
+    });
     if let Ok(bin) = std::env::var("VERIF_FAST_BIN") {
         if profile_name() == "checked" && run.only_parts.is_empty() {
-            run_sub_process(run, &bin, &["stops", "first_iteration"]);
+            run_sub_process(run, &bin, &["stops", "first_iteration", "any_node"]);
         }
     }
     RULE
